@@ -319,6 +319,8 @@ class _FilePersistence(_ConcretePersistence):
                     continue
 
                 if line == csv_header:
+                    if filtered_data_file:
+                        filtered_data_file.write(line)
                     continue
 
                 data_point, previous_run_id = self._parse_data_line(
